@@ -189,7 +189,8 @@ def h_dispatch(E, shape):
     user, spec = common.make_problem(E, ["free"], cons, fmt=shape.get("fmt", "coo"), policy=shape.get("policy", "fresh"))
     xs = mag(E, "xs", W0)
     ys = [E.real(f"ys{i}") for i in range(m)]
-    params = P.Params(scaling_type=P.ScalingType[kind], scaling_primal=arr([xs]), scaling_dual=arr(ys))
+    pk = dict(precision=P.Precision.Single) if shape.get("single") else {}  # float32 working precision, float64 user data
+    params = P.Params(scaling_type=P.ScalingType[kind], scaling_primal=arr([xs]), scaling_dual=arr(ys), **pk)
     snaps = common.snapshot([("params.scaling_primal", params.scaling_primal), ("params.scaling_dual", params.scaling_dual)])
     gv = E.uf("g0", xs)
     cv = E.uf("c0", xs) if m else 0.0
